@@ -17,3 +17,21 @@ brk("c33-no-keys-denies", "return lambda: True", "return lambda: False")
 brk("c33-first-matching-cert-decides",
     "                if expires > now:\n                    # not-expired\n                    return True",
     "                return expires > now")
+
+
+def brk_sc(name, old, new, note=""):
+    BREAKS.append(dict(name=name, prop="C33", file="storage_client.py", old=old, new=new, tier="quick", note=note))
+
+
+# ---- broker level (storage_client.py): only the C33 broker workload sees these
+brk_sc("c33-broker-native-server-always-permitted",
+       "        if self._grid_manager_verifier is None:\n            return True\n        return self._grid_manager_verifier()\n\n"
+       "    def get_permutation_seed(self):\n        return self._storage.permutation_seed",
+       "        return True\n\n    def get_permutation_seed(self):\n        return self._storage.permutation_seed")
+brk_sc("c33-broker-verifier-built-without-keys",
+       "            self.storage_client_config.grid_manager_keys,\n            [SignedCertificate.load(",
+       "            [],\n            [SignedCertificate.load(",
+       note="configured grid-manager keys never reach the verifier: every announced server is permitted")
+brk_sc("c33-broker-verifier-bound-to-other-identity",
+       '"pub-{}".format(str(server_id, "ascii")).encode("ascii"),',
+       '"pub-{}".format(str(server_id, "ascii"))[:-1].encode("ascii") + b"a",')
